@@ -64,7 +64,7 @@ EMPTY = z3.StringVal("")
 SPEC_FUNCS = (
     "joined old count n_count first_start last_end chain_ok span_ok joined_values "
     "implies is_none appended length seq_of at unchanged strip lstrip rstrip isspace "
-    "startswith endswith contains substr ite same present is_ctor or_empty field refs_closed writes_only has_op declares_param defines chars_subset differs_only_at is_suffix touched_exactly_one_marked isdigit isalpha isidentifier only_chars pure is_str"
+    "startswith endswith contains substr ite same present is_ctor or_empty field refs_closed writes_only has_op declares_param defines chars_subset differs_only_at is_suffix touched_exactly_one_marked isdigit isalpha isidentifier only_chars pure is_str replace"
 ).split()
 
 
@@ -1901,6 +1901,9 @@ class Engine(object):
             return VBool(z3.SuffixOf(args[1].z, args[0].z))
         if name == "contains":
             return VBool(z3.Contains(args[0].z, args[1].z))
+        if name == "replace":
+            # the SAME uninterpreted function the engine uses for s.replace(a, b) in the code
+            return self.opaque_call("str.replace", list(args[:3]), st, "str")
         if name == "substr":
             return VStr(self.py_slice(args[0].z, args[1].z if isinstance(args[1], VInt) else None, args[2].z if isinstance(args[2], VInt) else None))
         if name == "seq_of":
